@@ -509,8 +509,11 @@ func (se *SpecEnv) evalCall(x *ECall) Value {
 	if sf, ok := se.e.prog.specFn[se.pkg+"."+id.Name]; ok {
 		return se.callSpec(sf, x.Args)
 	}
-	if g, ok := se.e.prog.ghosts[id.Name]; ok && g.Key != nil && len(x.Args) == 1 {
+	if g, ok := se.e.prog.ghosts[id.Name]; ok && g.Key != nil && len(x.Args) == 1 && g.Key2 == nil {
 		return se.ghostGet(g, se.eval(x.Args[0]).T)
+	}
+	if g, ok := se.e.prog.ghosts[id.Name]; ok && g.Key2 != nil && len(x.Args) == 2 {
+		return se.ghostGet2(g, se.eval(x.Args[0]).T, se.eval(x.Args[1]).T)
 	}
 	// conversion to a basic or package type
 	if o := types.Universe.Lookup(id.Name); o != nil {
@@ -592,6 +595,17 @@ func (se *SpecEnv) callSpec(sf *SpecFunc, args []Expr) Value {
 	return r
 }
 
+// ghostGet2 reads a two-dimensional ghost variable.
+func (se *SpecEnv) ghostGet2(g *GhostVar, k1, k2 string) Value {
+	inner := *se
+	inner.pkg = g.Pkg
+	t := inner.resolveType(g.T)
+	srt := se.e.sr.sortOf(t)
+	se.e.noteMapType("G!"+g.Name, t, "elem")
+	m := se.e.heapGet(se.s, "G!"+g.Name, arr("Int", arr("Int", srt)))
+	return Value{T: sel2(sel2(m, k1), k2), Sort: srt, GoT: t}
+}
+
 // ghostGet reads a ghost variable (global, or per-object when obj != "").
 func (se *SpecEnv) ghostGet(g *GhostVar, obj string) Value {
 	inner := *se
@@ -602,6 +616,7 @@ func (se *SpecEnv) ghostGet(g *GhostVar, obj string) Value {
 		m := se.e.heapGet(se.s, "G!"+g.Name, srt)
 		return Value{T: m, Sort: srt, GoT: t}
 	}
+	se.e.noteMapType("G!"+g.Name, t, "field")
 	m := se.e.heapGet(se.s, "G!"+g.Name, arr("Int", srt))
 	return Value{T: sel2(m, obj), Sort: srt, GoT: t}
 }
